@@ -245,7 +245,8 @@ func (c *c19) any(t byte, doc []byte) {
 		desc, names bool
 	}
 	td := inferTyped(t, doc)
-	vs := []variant{{"ReadAny", false, false, false, false}, {"ReadAny/bin/i8", true, true, false, false}}
+	vs := []variant{{"ReadAny", false, false, false, false}, {"ReadAny/bin/i8", true, true, false, false},
+		{"ReadAny/bin", true, false, false, false}, {"ReadAny/i8", false, true, false, false}}
 	if td.ok {
 		vs = append(vs, variant{"WithDesc", false, true, true, false}, variant{"WithDesc/name/u8", false, false, true, true})
 	}
